@@ -83,6 +83,7 @@ func main() {
 	only := flag.String("only", "", "run only this rule (debugging)")
 	selftest := flag.String("mutants", "", "run the mutant/variant self-test for this property id (or 'all') and print a table")
 	verbose := flag.Bool("v", false, "print every obligation")
+	docgen := flag.Bool("doc", false, "print the per-property section and rule index of DESIGN.md")
 	manifest := flag.Bool("manifest", false, "print MANIFEST.json generated from the property table")
 	provDbg := flag.String("prov", "", "print provenance of stores/returns/call arguments of the module function with this key (debugging)")
 	dump := flag.String("dump", "", "print the SSA of the module function with this key (debugging)")
@@ -90,6 +91,10 @@ func main() {
 	verifDir = *vdir
 	if *manifest {
 		emitManifest()
+		return
+	}
+	if *docgen {
+		emitDoc()
 		return
 	}
 	if *provDbg != "" {
